@@ -203,7 +203,45 @@ func allIncon(runs []*batchRun) []string {
 	return out
 }
 
-// runBatch runs the cases of a batch in child processes; a child that dies is restarted behind the fatal case.
+// runChild runs one child process over the given cases and returns its results, whether it finished, its exit
+// status and the head and tail of its output.
+func runChild(br *batchRun, bin, stem string, cases []caseDesc, timeoutS int) (results []result, done bool, code int, tail []string, err error) {
+	b := br.b
+	b.Cases = cases
+	raw, _ := json.Marshal(b)
+	if err = os.WriteFile(stem+".json", raw, 0o644); err != nil {
+		return nil, false, -1, nil, fmt.Errorf("cannot write batch file: %v", err)
+	}
+	out, err := os.Create(stem + ".out")
+	if err != nil {
+		return nil, false, -1, nil, fmt.Errorf("cannot create child output file: %v", err)
+	}
+	cmd := exec.Command("timeout", "-s", "QUIT", fmt.Sprint(timeoutS), bin, "-child", stem+".json")
+	cmd.Stdout, cmd.Stderr = out, out
+	runErr := cmd.Run()
+	out.Close()
+	results, done = readResults(stem + ".res.jsonl")
+	code = 0
+	if ee, ok := runErr.(*exec.ExitError); ok {
+		code = ee.ExitCode()
+	} else if runErr != nil {
+		code = -1
+	}
+	return results, done, code, fileTail(stem+".out", 60), nil
+}
+
+func fatalLine(tail []string) string {
+	for _, l := range tail {
+		if strings.HasPrefix(l, "fatal error:") || strings.HasPrefix(l, "panic:") || strings.HasPrefix(l, "runtime:") {
+			return l
+		}
+	}
+	return ""
+}
+
+// runBatch runs the cases of a batch in child processes.  When a child dies, every case that was logged (sent or about
+// to be sent) but has no result is run again ALONE in a fresh child: the one that kills its child again is the fatal
+// input; the others get their results; the rest of the batch continues in a new child.
 func runBatch(br *batchRun, bin, runDir string, timeoutS int) {
 	remaining := br.b.Cases
 	for attempt := 0; len(remaining) > 0; attempt++ {
@@ -212,33 +250,15 @@ func runBatch(br *batchRun, bin, runDir string, timeoutS int) {
 			return
 		}
 		stem := filepath.Join(runDir, fmt.Sprintf("batch-%03d-%d", br.b.No, attempt))
-		b := br.b
-		b.Cases = remaining
-		raw, _ := json.Marshal(b)
-		if err := os.WriteFile(stem+".json", raw, 0o644); err != nil {
-			br.incon = append(br.incon, "cannot write batch file: "+err.Error())
-			return
-		}
-		out, err := os.Create(stem + ".out")
+		results, done, code, tail, err := runChild(br, bin, stem, remaining, timeoutS)
 		if err != nil {
-			br.incon = append(br.incon, "cannot create child output file: "+err.Error())
+			br.incon = append(br.incon, err.Error())
 			return
 		}
-		cmd := exec.Command("timeout", "-s", "QUIT", fmt.Sprint(timeoutS), bin, "-child", stem+".json")
-		cmd.Stdout, cmd.Stderr = out, out
-		runErr := cmd.Run()
-		out.Close()
-		results, done := readResults(stem + ".res.jsonl")
 		br.results = append(br.results, results...)
 		if done {
 			return
 		}
-		// the child ended early
-		code := -1
-		if ee, ok := runErr.(*exec.ExitError); ok {
-			code = ee.ExitCode()
-		}
-		tail := fileTail(stem+".out", 60)
 		if code == 124 || code == 137 {
 			br.incon = append(br.incon, fmt.Sprintf("batch %d: child watchdog (timeout %d s) fired", br.b.No, timeoutS))
 			return
@@ -247,40 +267,59 @@ func runBatch(br *batchRun, bin, runDir string, timeoutS int) {
 		for _, res := range results {
 			finished[res.ID] = true
 		}
-		last := lastLogged(stem + ".log.jsonl")
-		fatal := ""
-		for _, l := range tail {
-			if strings.HasPrefix(l, "fatal error:") || strings.HasPrefix(l, "panic:") || strings.HasPrefix(l, "runtime:") {
-				fatal = l
-				break
+		logged := loggedCases(stem + ".log.jsonl")
+		fatal := fatalLine(tail)
+		var inflight []map[string]interface{}
+		for _, l := range logged {
+			if f, ok := l["id"].(float64); ok && !finished[int(f)] {
+				inflight = append(inflight, l)
 			}
 		}
-		var lastID = -1
-		if last != nil {
-			if f, ok := last["id"].(float64); ok {
-				lastID = int(f)
-			}
-		}
-		if last == nil || finished[lastID] || fatal == "" {
+		if len(inflight) == 0 || fatal == "" {
 			br.incon = append(br.incon, fmt.Sprintf("batch %d: child exited with status %d without finishing and without an identifiable fatal input (see %s.out)", br.b.No, code, stem))
 			return
 		}
-		var desc caseDesc
+		br.restarts++
+		byID := map[int]caseDesc{}
 		for _, c := range remaining {
-			if c.ID == lastID {
-				desc = c
+			byID[c.ID] = c
+		}
+		touched := map[int]bool{}
+		reproduced := false
+		for _, l := range inflight {
+			id := int(l["id"].(float64))
+			touched[id] = true
+			desc := byID[id]
+			sstem := filepath.Join(runDir, fmt.Sprintf("batch-%03d-%d-solo-%d", br.b.No, attempt, id))
+			sres, sdone, scode, stail, serr := runChild(br, bin, sstem, []caseDesc{desc}, timeoutS)
+			if serr != nil {
+				br.incon = append(br.incon, serr.Error())
+				return
+			}
+			if sdone {
+				br.results = append(br.results, sres...)
+				continue
+			}
+			if sf := fatalLine(stail); sf != "" {
+				reproduced = true
+				if sl := loggedCases(sstem + ".log.jsonl"); len(sl) > 0 {
+					l = sl[len(sl)-1]
+				}
+				l["desc"], l["fatal"], l["child_exit_status"], l["child_output_tail"], l["reproduced_alone"] = desc, sf, scode, stail, true
+				br.died = append(br.died, l)
+			} else {
+				br.incon = append(br.incon, fmt.Sprintf("batch %d: the solo run of case %d ended with status %d without result (see %s.out)", br.b.No, id, scode, sstem))
 			}
 		}
-		last["desc"] = desc
-		last["fatal"] = fatal
-		last["child_exit_status"] = code
-		last["child_output_tail"] = tail
-		br.died = append(br.died, last)
-		br.restarts++
-		// everything without a result is run again, except the fatal case
+		if !reproduced {
+			// the death needed more than one of the messages in flight: it is reported with the last logged input
+			l := inflight[len(inflight)-1]
+			l["desc"], l["fatal"], l["child_exit_status"], l["child_output_tail"], l["reproduced_alone"] = byID[int(l["id"].(float64))], fatal, code, tail, false
+			br.died = append(br.died, l)
+		}
 		var rest []caseDesc
 		for _, c := range remaining {
-			if !finished[c.ID] && c.ID != lastID {
+			if !finished[c.ID] && !touched[c.ID] {
 				rest = append(rest, c)
 			}
 		}
@@ -313,22 +352,22 @@ func readResults(path string) ([]result, bool) {
 	return out, done
 }
 
-func lastLogged(path string) map[string]interface{} {
+func loggedCases(path string) []map[string]interface{} {
 	f, err := os.Open(path)
 	if err != nil {
 		return nil
 	}
 	defer f.Close()
-	var last map[string]interface{}
+	var out []map[string]interface{}
 	sc := bufio.NewScanner(f)
 	sc.Buffer(make([]byte, 1<<20), 64<<20)
 	for sc.Scan() {
 		var m map[string]interface{}
 		if json.Unmarshal(sc.Bytes(), &m) == nil {
-			last = m
+			out = append(out, m)
 		}
 	}
-	return last
+	return out
 }
 
 func fileTail(path string, n int) []string {
